@@ -22,6 +22,7 @@ import (
 
 	"pgregory.net/rapid"
 
+	"github.com/jech/galene/group"
 	"github.com/jech/galene/verifkit"
 )
 
@@ -142,6 +143,18 @@ func TestVerif_C18_ParkedWriters(t *testing.T) {
 			}
 			return "present:" + fmt.Sprint(u["permissions"])
 		}
+		// the running server may hold the group in memory
+		held := rapid.Bool().Draw(t, "groupHeldInMemory")
+		hold := func() {
+			if held && group.Get(g) == nil {
+				if _, err := os.Stat(fn); err == nil {
+					group.Add(g, nil)
+				}
+			}
+		}
+		defer group.Delete(g)
+		hold()
+		c18pRec.ClassIf(held, "group_held_in_memory_by_the_server")
 		servedTag := ""
 		if exists {
 			r, err := rig.raw("GET", path, map[string]string{"Authorization": auth}, nil)
@@ -183,6 +196,7 @@ func TestVerif_C18_ParkedWriters(t *testing.T) {
 		var plan []string
 		nMean := rapid.IntRange(1, 2).Draw(t, "meanwhileWrites")
 		for i := 0; i < nMean; i++ {
+			hold()
 			op := rapid.SampledFrom([]string{"put", "put", "delete", "delete-recreate"}).Draw(t, "meanwhile")
 			n := 2 + i
 			switch op {
